@@ -24,8 +24,9 @@ def load_known():
             line = line.strip()
             if line.startswith('known:'):
                 parts = line[6:].split()
-                d = dict(x.split('=', 1) for x in parts[:2])
-                d['text'] = ' '.join(parts[2:])
+                n = 3 if len(parts) > 2 and parts[2].startswith('match=') else 2
+                d = dict(x.split('=', 1) for x in parts[:n])
+                d['text'] = ' '.join(parts[n:])
                 known.append(d)
             elif line.startswith('fixed:'):
                 fixed.append(line)
@@ -150,7 +151,16 @@ def main(argv=None):
             print('  job %s %s wall=%.1fs paths=%s label_s=%s' % (r['harness'], r['params'], r.get('wall_s') or 0, r.get('paths'),
                                                               sorted((r.get('label_s') or {}).items(), key=lambda kv: -kv[1])[:4]))
     known, _fixed = load_known()
-    known_keys = {k['key']: k for k in known if k.get('property') == prop}
+    known_list = [k for k in known if k.get('property') == prop]
+
+    def _known_for(key, v):
+        """a listed finding covers a violation when the obligation key agrees and - if the entry names a failing input / history with
+        match=<text> - that text occurs in the violation's job parameters or recorded history"""
+        ctx = json.dumps([v.get('params'), v.get('info')], default=str, sort_keys=True)
+        for k in known_list:
+            if k.get('key') == key and (not k.get('match') or k['match'] in ctx):
+                return k
+        return None
     errors, violations, known_hits, inconclusive = [], [], [], []
     tot = dict(paths=0, q_unsat=0, q_sat=0, q_unknown=0, solver_s=0.0, forks=0, aborted=0, val=0, div_sites=0, assumed_feasible=0, cut_unsettled=0)
     proved, covers, files, assumes, samples = {}, {}, set(), set(), []
@@ -185,8 +195,9 @@ def main(argv=None):
                     key, rep, real, json.dumps(v['model'], default=str)[:400]))
                 continue
             v['key'] = key
-            if key in known_keys:
-                known_hits.append((key, known_keys[key]))
+            kf = _known_for(key, v)
+            if kf is not None:
+                known_hits.append((key + ('[' + kf['match'] + ']' if kf.get('match') else ''), kf))
             else:
                 violations.append(v)
 
@@ -199,9 +210,10 @@ def main(argv=None):
             out_lines.append('KNOWN-FINDING: property=%s key=%s %s' % (prop, key, k.get('text', '')))
     seen_v = set()
     for v in violations:
-        if v['key'] in seen_v:
+        vk = (v['key'], json.dumps(v.get('params'), default=str, sort_keys=True))
+        if vk in seen_v:
             continue
-        seen_v.add(v['key'])
+        seen_v.add(vk)
         d = os.path.join(VERIF, 'replays', prop)
         os.makedirs(d, exist_ok=True)
         blob = {'property': prop, 'harness': v['harness'], 'label': v['label'], 'params': v['params'],
